@@ -424,3 +424,124 @@ Proof.
   - destruct (N.ltb_spec m v); lia.
   - rewrite IHt. lia.
 Qed.
+
+(* ================================================================== Part 3: sorting *)
+Ltac cmp3 :=
+  repeat match goal with
+         | |- context [?a ?= ?b] => destruct (N.compare_spec a b)
+         | H : context [?a ?= ?b] |- _ => destruct (N.compare_spec a b)
+         end; try congruence; try lia.
+
+Lemma cmp1_antisym k a b : cmp1 k b a = CompOpp (cmp1 k a b).
+Proof. destruct k; cbn [cmp1]; apply N.compare_antisym. Qed.
+Lemma cmp1_trans k a b c : cmp1 k a b = Lt -> cmp1 k b c = Lt -> cmp1 k a c = Lt.
+Proof. destruct k; cbn [cmp1]; rewrite !N.compare_lt_iff; lia. Qed.
+Lemma cmp1_eq_l k a b c : cmp1 k a b = Eq -> cmp1 k a c = cmp1 k b c.
+Proof. destruct k; cbn [cmp1]; rewrite N.compare_eq_iff; intros ->; reflexivity. Qed.
+Lemma cmp1_eq_r k a b c : cmp1 k b c = Eq -> cmp1 k a b = cmp1 k a c.
+Proof. destruct k; cbn [cmp1]; rewrite N.compare_eq_iff; intros ->; reflexivity. Qed.
+
+Lemma cmp_antisym ks a b : cmp_node ks b a = CompOpp (cmp_node ks a b).
+Proof.
+  induction ks as [|k t IH]; cbn [cmp_node]; [reflexivity|].
+  rewrite (cmp1_antisym k a b). destruct (cmp1 k a b); cbn [CompOpp]; auto.
+Qed.
+Lemma cmp_eq_l ks a b c : cmp_node ks a b = Eq -> cmp_node ks a c = cmp_node ks b c.
+Proof.
+  induction ks as [|k t IH]; cbn [cmp_node]; [reflexivity|].
+  destruct (cmp1 k a b) eqn:E; try discriminate. intro H.
+  rewrite (cmp1_eq_l k a b c E). destruct (cmp1 k b c); auto.
+Qed.
+Lemma cmp_eq_r ks a b c : cmp_node ks b c = Eq -> cmp_node ks a b = cmp_node ks a c.
+Proof.
+  induction ks as [|k t IH]; cbn [cmp_node]; [reflexivity|].
+  destruct (cmp1 k b c) eqn:E; try discriminate. intro H.
+  rewrite (cmp1_eq_r k a b c E). destruct (cmp1 k a c); auto.
+Qed.
+Lemma cmp_trans ks a b c : cmp_node ks a b = Lt -> cmp_node ks b c = Lt -> cmp_node ks a c = Lt.
+Proof.
+  induction ks as [|k t IH]; cbn [cmp_node]; [discriminate|].
+  destruct (cmp1 k a b) eqn:E1; try discriminate; destruct (cmp1 k b c) eqn:E2; try discriminate; intros H1 H2.
+  - rewrite (cmp1_eq_l k a b c E1), E2. auto.
+  - rewrite (cmp1_eq_l k a b c E1), E2. reflexivity.
+  - rewrite <- (cmp1_eq_r k a b c E2), E1. reflexivity.
+  - rewrite (cmp1_trans k a b c E1 E2). reflexivity.
+Qed.
+
+(* the order of printed rows: [a] may stand before [b] *)
+Definition before (ks : list key) (a b : node) : Prop :=
+  lt_node ks a b = false /\ (cmp_node ks a b = Eq -> n_name a < n_name b).
+
+Lemma lt_node_Lt ks a b : lt_node ks a b = true <-> cmp_node ks a b = Lt.
+Proof. unfold lt_node. destruct (cmp_node ks a b); split; congruence. Qed.
+
+Lemma insert_perm ks n l : Permutation (n :: l) (insert_sorted ks n l).
+Proof.
+  induction l as [|x t IH]; cbn [insert_sorted]; [apply Permutation_refl|].
+  destruct (lt_node ks x n); [apply Permutation_refl|].
+  eapply perm_trans; [apply perm_swap|]. apply perm_skip, IH.
+Qed.
+
+Lemma insert_before ks n l :
+  StronglySorted (before ks) l -> Forall (fun x => n_name x < n_name n) l ->
+  StronglySorted (before ks) (insert_sorted ks n l).
+Proof.
+  induction l as [|x t IH]; intros Hs Hn; cbn [insert_sorted].
+  - repeat constructor.
+  - apply StronglySorted_inv in Hs. destruct Hs as [Hs Hx]. inversion Hn as [|? ? Hxn Htn]; subst.
+    destruct (lt_node ks x n) eqn:L.
+    + (* n goes in front of x: x < n *)
+      apply lt_node_Lt in L.
+      assert (cmp_node ks n x = Gt) as G by (rewrite cmp_antisym, L; reflexivity).
+      constructor; [constructor; assumption|]. constructor.
+      * unfold before, lt_node. rewrite G. split; [reflexivity|discriminate].
+      * rewrite Forall_forall in Hx |- *. intros y Hy. destruct (Hx y Hy) as [Hxy _].
+        (* x >= y and x < n, so n > y *)
+        destruct (cmp_node ks n y) eqn:C.
+        -- exfalso. rewrite (cmp_eq_r ks x n y C) in L. apply lt_node_Lt in L. congruence.
+        -- exfalso. pose proof (cmp_trans ks x n y L C) as T. apply lt_node_Lt in T. congruence.
+        -- unfold before, lt_node. rewrite C. split; [reflexivity|discriminate].
+    + constructor; [apply IH; assumption|].
+      apply (Permutation_Forall (insert_perm ks n t)). constructor; [|exact Hx].
+      split; [exact L|]. intros _. exact Hxn.
+Qed.
+
+(* report_sort_nodes: the rows are a permutation of the table, no row stands before a row that is
+   larger under the key list (descending order), rows equal under all keys keep the name order *)
+Theorem sort_nodes_sorted ks tbl : names_sorted tbl ->
+  StronglySorted (before ks) (sort_nodes ks tbl) /\ Permutation tbl (sort_nodes ks tbl).
+Proof.
+  unfold sort_nodes, names_sorted.
+  assert (forall acc, StronglySorted (before ks) acc ->
+                      Forall (fun x => Forall (fun y => n_name x < n_name y) tbl) acc ->
+                      StronglySorted N.lt (map n_name tbl) ->
+                      StronglySorted (before ks) (fold_left (fun a n => insert_sorted ks n a) tbl acc)
+                      /\ Permutation (acc ++ tbl) (fold_left (fun a n => insert_sorted ks n a) tbl acc)) as G.
+  { induction tbl as [|n t IH]; intros acc Ha Hlt Hs; cbn [fold_left].
+    - rewrite app_nil_r. split; [exact Ha|apply Permutation_refl].
+    - cbn [map] in Hs. apply StronglySorted_inv in Hs. destruct Hs as [Hs Hn].
+      destruct (IH (insert_sorted ks n acc)) as [I1 I2].
+      + apply insert_before; [exact Ha|]. rewrite Forall_forall in Hlt |- *. intros x Hx.
+        specialize (Hlt x Hx). inversion Hlt; assumption.
+      + apply (Permutation_Forall (insert_perm ks n acc)). constructor.
+        * rewrite Forall_forall in Hn |- *. intros y Hy. apply Hn, in_map, Hy.
+        * rewrite Forall_forall in Hlt |- *. intros x Hx. specialize (Hlt x Hx). inversion Hlt; assumption.
+      + exact Hs.
+      + split; [exact I1|]. eapply perm_trans; [|exact I2].
+        eapply perm_trans; [apply Permutation_sym, Permutation_middle|].
+        change (n :: acc ++ t) with ((n :: acc) ++ t). apply Permutation_app_tail, insert_perm. }
+  intro Hs. destruct (G [] (SSorted_nil _) (Forall_nil _) Hs) as [G1 G2]. split; assumption.
+Qed.
+
+(* the run-time checker's adjacent-pair test follows *)
+Lemma sorted_desc_of_before ks l : StronglySorted (before ks) l -> sorted_desc ks l = true.
+Proof.
+  induction 1 as [|a t Hs IH Ha]; [reflexivity|].
+  destruct t as [|b t']; [reflexivity|].
+  change (sorted_desc ks (a :: b :: t')) with
+    (negb (lt_node ks a b) && (match cmp_node ks a b with Eq => n_name a <? n_name b | _ => true end)
+     && sorted_desc ks (b :: t')).
+  rewrite IH.
+  inversion Ha as [|? ? [H1 H2] _]; subst. rewrite H1. cbn [negb andb].
+  destruct (cmp_node ks a b); try reflexivity. rewrite andb_true_r. specialize (H2 eq_refl). lia.
+Qed.
